@@ -110,11 +110,9 @@ def elements_of(case):
     return els
 
 
-def build_layer(case):
-    """Serial(connection, neuron) with an updater; delays set to whole multiples of dt."""
-    from inferno.extra import ExactNeuron
-    from inferno.neural import (Conv2D, DeltaCurrent, LIF, LinearDense, LinearDirect,
-                                LinearLateral, Serial)
+def build_connection(case):
+    """The case's connection with an updater; delays set to whole multiples of dt."""
+    from inferno.neural import Conv2D, DeltaCurrent, LinearDense, LinearDirect, LinearLateral
 
     ishape, oshape, _, _ = shapes_of(case)
     dt, B = case["dt"], case["B"]
@@ -144,12 +142,26 @@ def build_layer(case):
         ds0 = ds[0] if isinstance(ds, list) else ds
         conn.delay = torch.tensor(ds0.astype(np.float64) * dt, dtype=wdt)
     conn.updater = conn.defaultupdater()
+    return conn
+
+
+def build_neuron(case):
+    from inferno.extra import ExactNeuron
+    from inferno.neural import LIF
+
+    _, oshape, _, _ = shapes_of(case)
+    dt, B = case["dt"], case["B"]
     if case.get("neuron", "exact") == "lif":
-        neuron = LIF(oshape, dt, rest_v=-60.0, reset_v=-65.0, thresh_v=-50.0, refrac_t=2 * dt,
-                     time_constant=20.0, resistance=30.0, batch_size=B)
-    else:
-        neuron = ExactNeuron(oshape, dt, rest_v=-60.0, thresh_v=-45.0, batch_size=B)
-    return Serial(conn, neuron)
+        return LIF(oshape, dt, rest_v=-60.0, reset_v=-65.0, thresh_v=-50.0, refrac_t=2 * dt,
+                   time_constant=20.0, resistance=30.0, batch_size=B)
+    return ExactNeuron(oshape, dt, rest_v=-60.0, thresh_v=-45.0, batch_size=B)
+
+
+def build_layer(case):
+    """Serial(connection, neuron)."""
+    from inferno.neural import Serial
+
+    return Serial(build_connection(case), build_neuron(case))
 
 
 def rule_of(case) -> dict:
@@ -168,29 +180,68 @@ def rule_of(case) -> dict:
     return r
 
 
-def build_trainer(case, layer):
+def cell_delayed(case) -> bool:
+    d = case.get("delay")
+    return bool(case.get("delayed", False) if d is None else d.get("delayed", False))
+
+
+def ctor_view(case) -> dict:
+    """Hyper-parameters the trainer is CONSTRUCTED with. Without ``case['ctor']`` they are
+    the cell's own; with it the cell overrides the keys listed in ``case['override']`` at
+    ``register_cell`` (for every other key the generator made both values equal), so the
+    documented behaviour is always the one of the cell's values ``hp/mode/reduction/...``."""
+    c = case.get("ctor")
+    if c:
+        return c
+    return {"hp": case["hp"], "mode": case["mode"], "reduction": case["reduction"],
+            "delayed": cell_delayed(case), "inplace": bool(case.get("inplace", False))}
+
+
+_KW = {"mode": "trace_mode", "reduction": "batch_reduction", "tc_elig": "tc_eligibility"}
+
+
+def override_kwargs(case) -> dict:
+    """Keyword arguments of ``register_cell`` for the keys the cell overrides."""
+    out = {}
+    for k in case.get("override") or []:
+        if k == "mode":
+            out["trace_mode"] = case["mode"]
+        elif k == "reduction":
+            out["batch_reduction"] = REDUCTIONS[case["reduction"]]
+        elif k == "delayed":
+            out["delayed"] = cell_delayed(case)
+        elif k == "inplace":
+            out["inplace"] = bool(case.get("inplace", False))
+        else:
+            out[_KW.get(k, k)] = case["hp"][k]
+    return out
+
+
+def construct_trainer(case):
     import inferno.learn as L
     from inferno.learn.trainers import two_factor_stdp as tf
 
     name = case["trainer"]
-    hp = case["hp"]
-    red = REDUCTIONS[case["reduction"]]
-    common = dict(trace_mode=case["mode"], batch_reduction=red,
+    cv = ctor_view(case)
+    hp = cv["hp"]
+    common = dict(trace_mode=cv["mode"], batch_reduction=REDUCTIONS[cv["reduction"]],
                   interp_tolerance=case.get("tolerance", 0.0))
-    d = case.get("delay")
-    delayed = bool(case.get("delayed", False) if d is None else d.get("delayed", False))
+    delayed = bool(cv.get("delayed", False))
     if name in TRIPLET_TRAINERS:
         cls = L.TripletSTDP if name == "TripletSTDP" else tf.StableTripletSTDP
-        tr = cls(hp["lr_post_pair"], hp["lr_post_triplet"], hp["lr_pre_pair"], hp["lr_pre_triplet"],
-                 hp["tc_post_fast"], hp["tc_post_slow"], hp["tc_pre_fast"], hp["tc_pre_slow"],
-                 delayed=delayed, inplace=bool(case.get("inplace", False)), **common)
-    elif name == "MSTDPET":
-        tr = L.MSTDPET(hp["lr_post"], hp["lr_pre"], hp["tc_post"], hp["tc_pre"], hp["tc_elig"],
-                       **common)
-    else:
-        cls = {"STDP": L.STDP, "StableSTDP": tf.StableSTDP, "MSTDP": L.MSTDP}[name]
-        tr = cls(hp["lr_post"], hp["lr_pre"], hp["tc_post"], hp["tc_pre"], delayed=delayed, **common)
-    tr.register_cell("cell", layer.cell)
+        return cls(hp["lr_post_pair"], hp["lr_post_triplet"], hp["lr_pre_pair"], hp["lr_pre_triplet"],
+                   hp["tc_post_fast"], hp["tc_post_slow"], hp["tc_pre_fast"], hp["tc_pre_slow"],
+                   delayed=delayed, inplace=bool(cv.get("inplace", False)), **common)
+    if name == "MSTDPET":
+        return L.MSTDPET(hp["lr_post"], hp["lr_pre"], hp["tc_post"], hp["tc_pre"], hp["tc_elig"],
+                         **common)
+    cls = {"STDP": L.STDP, "StableSTDP": tf.StableSTDP, "MSTDP": L.MSTDP}[name]
+    return cls(hp["lr_post"], hp["lr_pre"], hp["tc_post"], hp["tc_pre"], delayed=delayed, **common)
+
+
+def build_trainer(case, layer):
+    tr = construct_trainer(case)
+    tr.register_cell("cell", layer.cell, **override_kwargs(case))
     return tr
 
 
@@ -291,24 +342,12 @@ def run_pairs(case):
         return _run_pairs(case)
 
 
-def _run_pairs(case):
-    torch.manual_seed(0)
-    with impl("construct"):
-        layer = build_layer(case)
-        trainer = build_trainer(case, layer)
-    w0 = _np(layer.connection.weight)
-    posts, obs = drive(case, layer, trainer)
-    ltp, ltd = reference(case, posts)
-    net = ltp - ltd  # [T, n]
+def compare_obs(tag, obs, net, keep, w0, info):
+    """Observations of one connection against the per-step signed reference ``net``
+    ([T, n]): accumulated pos - neg after every trainer call, weight after every update."""
     n = net.shape[1]
-    keep = np.ones(n, dtype=bool)
-    if case["conn"] == "lateral":
-        # the diagonal of a lateral connection is not a synapse (documented mask)
-        m = weight_shape(case)[0]
-        keep = (1 - np.eye(m)).astype(bool).reshape(-1)
     pending = np.zeros(n)
     applied = np.zeros(n)
-    tag = f"{case['trainer']}"
     for ob in obs:
         if ob[0] == "call":
             _, t, pos, neg = ob
@@ -319,7 +358,7 @@ def _run_pairs(case):
             ok = close(got, pending) | ~keep
             check(bool(ok.all()), "step:value",
                   lambda: f"{tag} step {t}: accumulated pos-neg {got.tolist()} != pair sum {pending.tolist()}",
-                  info={"trainer": case["trainer"], "conn": case["conn"]})
+                  info=info)
         else:
             _, t, w = ob
             applied = applied + pending
@@ -328,7 +367,47 @@ def _run_pairs(case):
             ok = close(w - w0, want - w0)
             check(bool(ok.all()), "weight:value",
                   lambda: f"{tag} after update at step {t}: weight change {(w - w0).tolist()} != pair sum {(want - w0).tolist()}",
-                  info={"trainer": case["trainer"], "conn": case["conn"]})
+                  info=info)
+
+
+def lateral_keep(case, n):
+    if case["conn"] == "lateral":
+        # the diagonal of a lateral connection is not a synapse (documented mask)
+        m = weight_shape(case)[0]
+        return (1 - np.eye(m)).astype(bool).reshape(-1)
+    return np.ones(n, dtype=bool)
+
+
+def override_classes(case):
+    """Class labels describing how the cell's values differ from the constructor's."""
+    if not case.get("ctor"):
+        return []
+    cls = ["override"]
+    cv, ov = case["ctor"], case.get("override") or []
+    lrk = [k for k in ov if k in ("lr_post", "lr_pre", "lr_post_pair", "lr_pre_pair", "lr_causal", "lr_anti")]
+    if any((cv["hp"][k] >= 0) != (case["hp"][k] >= 0) for k in lrk):
+        cls.append("override_signmode")
+    for k in ("mode", "reduction", "delayed"):
+        if k in ov:
+            cls.append("override_" + k)
+    if any(k.startswith("tc_") for k in ov):
+        cls.append("override_tc")
+    return cls
+
+
+def _run_pairs(case):
+    torch.manual_seed(0)
+    with impl("construct"):
+        layer = build_layer(case)
+        trainer = build_trainer(case, layer)
+    w0 = _np(layer.connection.weight)
+    posts, obs = drive(case, layer, trainer)
+    ltp, ltd = reference(case, posts)
+    net = ltp - ltd  # [T, n]
+    n = net.shape[1]
+    keep = lateral_keep(case, n)
+    compare_obs(case["trainer"], obs, net, keep, w0,
+                {"trainer": case["trainer"], "conn": case["conn"], "override": bool(case.get("ctor"))})
     stats = M.pair_stats(case["pre"], posts, elements_of(case), case["called"])
     d = case.get("delay")
     hetero = d is not None and stats["delays"] >= 2
@@ -356,6 +435,192 @@ def _run_pairs(case):
         cls.append("f64")
     if not all(case["called"]):
         cls.append("skipped_calls")
+    cls += override_classes(case)
+    return {"nt": bool(nt), "cls": cls}
+
+
+# --------------------------------------------------------------------------------------
+# several cells of one layer trained by one trainer
+
+
+def expand_cells(case):
+    """The single-cell views of a multi-cell case: every cell is a complete single-cell
+    case (own connection geometry, delays, effective hyper-parameters, override list)
+    sharing trainer, constructor values, batch, step time, length, calls and reward."""
+    shared = {k: case[k] for k in ("trainer", "B", "dt", "T", "called", "update", "ctor", "signal",
+                                   "scale", "tolerance") if k in case}
+    subs = []
+    for k, c in enumerate(case["cells"]):
+        sub = dict(shared)
+        sub.update(c)
+        sub.setdefault("neuron", "exact")
+        sub.setdefault("pre", case.get("pre_shared"))
+        sub.setdefault("post", case.get("post_shared"))
+        subs.append(sub)
+    return subs
+
+
+class Scene:
+    """Layer with the cells of a multi-cell case.
+
+    layouts: 'fanin'  -- Biclique, two connections onto ONE neuron group (cells share the
+                         postsynaptic population and its monitors' attribute);
+             'fanout' -- Biclique, ONE connection onto two neuron groups (cells share the
+                         connection, its presynaptic monitors' attribute and its accumulator);
+             'twice'  -- one Serial cell registered under two names."""
+
+    def __init__(self, case, subs):
+        from inferno.neural import Biclique, Serial
+
+        self.layout = case["layout"]
+        self.subs = subs
+        if self.layout == "fanin":
+            self.conns = [build_connection(subs[0]), build_connection(subs[1])]
+            self.layer = Biclique((("c0", self.conns[0]), ("c1", self.conns[1])),
+                                  (("n0", build_neuron(subs[0])),))
+            self.cells = [self.layer.get_cell("c0", "n0"), self.layer.get_cell("c1", "n0")]
+            self.conn_of = [0, 1]
+        elif self.layout == "fanout":
+            self.conns = [build_connection(subs[0])]
+            self.layer = Biclique((("c0", self.conns[0]),),
+                                  (("n0", build_neuron(subs[0])), ("n1", build_neuron(subs[1]))))
+            self.cells = [self.layer.get_cell("c0", "n0"), self.layer.get_cell("c0", "n1")]
+            self.conn_of = [0, 0]
+        elif self.layout == "twice":
+            self.conns = [build_connection(subs[0])]
+            self.layer = Serial(self.conns[0], build_neuron(subs[0]))
+            self.cells = [self.layer.cell, self.layer.cell]
+            self.conn_of = [0, 0]
+        else:
+            raise ValueError(self.layout)
+
+    def step(self, t):
+        """One layer step with scripted post spikes; returns the post spikes per cell."""
+        subs = self.subs
+        B = subs[0]["B"]
+
+        def tin(sub):
+            return torch.tensor(sub["pre"][t], dtype=torch.bool).reshape(B, *shapes_of(sub)[0])
+
+        def tout(sub):
+            return torch.tensor(sub["post"][t], dtype=torch.bool).reshape(B, *shapes_of(sub)[1])
+
+        if self.layout == "fanin":
+            out = self.layer({"c0": (tin(subs[0]),), "c1": (tin(subs[1]),)},
+                             neuron_kwargs={"n0": {"override": tout(subs[0])}})
+            outs = [out["n0"], out["n0"]]
+        elif self.layout == "fanout":
+            out = self.layer({"c0": (tin(subs[0]),)},
+                             neuron_kwargs={"n0": {"override": tout(subs[0])},
+                                            "n1": {"override": tout(subs[1])}})
+            outs = [out["n0"], out["n1"]]
+        else:
+            o = self.layer(tin(subs[0]), neuron_kwargs={"override": tout(subs[0])})
+            outs = [o, o]
+        res = []
+        for sub, o in zip(subs, outs):
+            no = shapes_of(sub)[3]
+            check(torch.equal(o.reshape(B, no), tout(sub).reshape(B, no)), "harness:override",
+                  lambda: f"step {t}: ExactNeuron did not emit the scripted spikes")
+            res.append(o.reshape(B, no).to(torch.int64).tolist())
+        return res
+
+
+def drive_multi(case, scene, trainer, params=None, call=call_trainer, before_update=None,
+                after_update=None):
+    """Runs a multi-cell history (one trainer call per step for all cells). Returns the
+    post histories per cell and one observation list per distinct connection (format of
+    :func:`drive`). ``params[j]`` is the trained parameter of connection ``j``."""
+    T = case["T"]
+    nconn = len(scene.conns)
+    params = params or ["weight"] * nconn
+    posts = [[] for _ in scene.subs]
+    obs = [[] for _ in range(nconn)]
+    fdt = scene.conns[0].weight.dtype
+    for t in range(T):
+        with impl(f"layer step {t}"):
+            outs = scene.step(t)
+        for k, o in enumerate(outs):
+            posts[k].append(o)
+        if case["called"][t]:
+            with impl(f"trainer step {t}"):
+                call(scene.subs[0], trainer, t, fdt)
+                parts = []
+                for j, conn in enumerate(scene.conns):
+                    acc = getattr(conn.updater, params[j])
+                    parts.append((acc.pos, acc.neg))
+            for j, (pos, neg) in enumerate(parts):
+                obs[j].append(("call", t, _np(pos), _np(neg)))
+        if case["update"][t] or t == T - 1:
+            for j, conn in enumerate(scene.conns):
+                if before_update is not None:
+                    before_update(j, t)
+                with impl(f"connection.update step {t}"):
+                    conn.update()
+                    w = getattr(conn, params[j])
+                obs[j].append(("update", t, _np(w)))
+                if after_update is not None:
+                    after_update(j, t)
+    return posts, obs
+
+
+_POOL_KEYS = ("hp", "mode", "reduction")
+
+
+def cells_differ(subs):
+    """Names of the effective hyper-parameters in which the two cells differ."""
+    a, b = subs[0], subs[1]
+    diff = [k for k in a["hp"] if a["hp"][k] != b["hp"].get(k)]
+    diff += [k for k in ("mode", "reduction") if a[k] != b[k]]
+    if cell_delayed(a) != cell_delayed(b):
+        diff.append("delayed")
+    return diff
+
+
+def run_multi(case):
+    with DefaultDtype(case.get("f64", False)):
+        return _run_multi(case)
+
+
+def _run_multi(case):
+    torch.manual_seed(0)
+    subs = expand_cells(case)
+    with impl("construct"):
+        scene = Scene(case, subs)
+        trainer = construct_trainer(subs[0])
+        for k, (sub, cell) in enumerate(zip(subs, scene.cells)):
+            trainer.register_cell("ab"[k], cell, **override_kwargs(sub))
+    w0 = [_np(c.weight) for c in scene.conns]
+    posts, obs = drive_multi(case, scene, trainer)
+    nets = []
+    for sub, ps in zip(subs, posts):
+        ltp, ltd = reference(sub, ps)
+        nets.append(ltp - ltd)
+    diff = cells_differ(subs)
+    for j in range(len(scene.conns)):
+        members = [k for k in range(len(subs)) if scene.conn_of[k] == j]
+        net = sum(nets[k] for k in members)
+        n = net.shape[1]
+        keep = lateral_keep(subs[members[0]], n)
+        tag = f"{case['trainer']} {case['layout']} connection {j} (cells {members})"
+        compare_obs(tag, obs[j], net, keep, w0[j],
+                    {"trainer": case["trainer"], "layout": case["layout"], "differ": diff})
+    called = np.array(case["called"], dtype=bool)
+    live = [bool(np.any(np.abs(nk[called]) > 0)) for nk in nets]
+    stats = [M.pair_stats(sub["pre"], ps, elements_of(sub), case["called"]) for sub, ps in zip(subs, posts)]
+    nt = all(live) and bool(diff) and all(st_["causal"] + st_["simul"] >= 1 and st_["anti"] + st_["simul"] >= 1
+                                         for st_ in stats)
+    cls = [f"trainer={case['trainer']}", f"layout={case['layout']}",
+           "cells=" + ("identical" if not diff else "differ"),
+           f"signs={_signs(subs[0])}|{_signs(subs[1])}"]
+    for k in diff:
+        cls.append("differ:" + ("lr" if k.startswith("lr_") else "tc" if k.startswith("tc_") else k))
+    cls = sorted(set(cls))
+    for sub in subs:
+        d = sub.get("delay")
+        cls.append("delay=" + ("none" if d is None else ("delayed" if d.get("delayed") else "frozen")))
+    if case["trainer"] in MODULATED:
+        cls.append("signal=" + ("persample" if any(isinstance(s_, list) for s_ in case["signal"]) else "scalar"))
     return {"nt": bool(nt), "cls": cls}
 
 
@@ -399,6 +664,107 @@ def hyper(draw, trainer):
     if trainer == "MSTDPET":
         hp["tc_elig"] = draw(st.sampled_from(_TC))
     return hp
+
+
+def override_groups(trainer):
+    """Keys a cell may override at registration (keys of one group are overridden together)."""
+    if trainer in TRIPLET_TRAINERS:
+        return [["lr_post_pair"], ["lr_pre_pair"], ["lr_post_triplet"], ["lr_pre_triplet"],
+                ["tc_post_fast", "tc_post_slow"], ["tc_pre_fast", "tc_pre_slow"],
+                ["mode"], ["reduction"], ["delayed"], ["inplace"]]
+    g = [["lr_post"], ["lr_pre"], ["tc_post"], ["tc_pre"], ["mode"], ["reduction"]]
+    if trainer == "MSTDPET":
+        g.append(["tc_elig"])
+    else:
+        g.append(["delayed"])
+    return g
+
+
+_LR_KEYS = ("lr_post", "lr_pre", "lr_post_pair", "lr_pre_pair", "lr_causal", "lr_anti", "plasticity")
+
+
+def _get(case, key):
+    if key in ("mode", "reduction"):
+        return case[key]
+    if key == "delayed":
+        return cell_delayed(case)
+    if key == "inplace":
+        return bool(case.get("inplace", False))
+    return case["hp"][key]
+
+
+def _set(case, key, val):
+    if key in ("mode", "reduction"):
+        case[key] = val
+    elif key == "delayed":
+        if case.get("delay") is None:
+            case["delayed"] = bool(val)
+        else:
+            case["delay"] = dict(case["delay"], delayed=bool(val))
+    elif key == "inplace":
+        case["inplace"] = bool(val)
+    else:
+        case["hp"] = dict(case["hp"], **{key: val})
+
+
+def _cv_get(cv, key):
+    return cv[key] if key in ("mode", "reduction", "delayed", "inplace") else cv["hp"][key]
+
+
+def _cv_set(cv, key, val):
+    if key in ("mode", "reduction", "delayed", "inplace"):
+        cv[key] = val
+    else:
+        cv["hp"][key] = val
+
+
+@st.composite
+def ctor_values(draw, trainer, hyper_strategy):
+    """A full, independent set of constructor hyper-parameters."""
+    return {"hp": dict(draw(hyper_strategy)), "mode": draw(st.sampled_from(["cumulative", "nearest"])),
+            "reduction": draw(st.sampled_from(["sum", "mean", "amax"])),
+            "delayed": draw(st.booleans()), "inplace": draw(st.booleans())}
+
+
+def choose_overrides(draw, groups):
+    chosen = []
+    for g in groups:
+        if draw(st.booleans()):
+            chosen += g
+    return chosen or list(groups[0])
+
+
+def apply_overrides(draw, case, groups, cv):
+    """Single cell: the trainer is constructed with ``cv`` and the cell overrides a drawn
+    subset of keys with its own values; every other constructor value is set to the
+    cell's. Learning rates the cell overrides get, in half of the cases, the opposite
+    sign in the constructor (the constructor's sign mode then differs from the cell's)."""
+    chosen = choose_overrides(draw, groups)
+    flip = draw(st.booleans())
+    for g in groups:
+        for k in g:
+            if k in chosen:
+                if flip and k in _LR_KEYS:
+                    v = abs(_cv_get(cv, k))
+                    _cv_set(cv, k, -v if _get(case, k) >= 0 else v)
+            else:
+                _cv_set(cv, k, _get(case, k))
+    case["ctor"] = cv
+    case["override"] = chosen
+    return case
+
+
+def cell_from_ctor(draw, cell, groups, cv, force=None):
+    """Several cells: the constructor values ``cv`` are shared; the cell keeps its own drawn
+    values for a drawn subset of keys (registered as overrides) and takes the constructor's
+    for the rest."""
+    chosen = choose_overrides(draw, groups) if force is None else force
+    for g in groups:
+        for k in g:
+            if k not in chosen:
+                _set(cell, k, _cv_get(cv, k))
+    cell["override"] = chosen
+    return cell
 
 
 def conv_enabled() -> bool:
@@ -505,6 +871,107 @@ def pairs_case(draw, tier="quick", trainers=TRAINERS):
     case["f64"] = draw(st.integers(0, 7)) == 7
     if trainer in TRIPLET_TRAINERS:
         case["inplace"] = draw(st.booleans())
+    if draw(st.integers(0, 4)) >= 3:
+        # the trainer is constructed with other values, the cell overrides them at registration
+        apply_overrides(draw, case, override_groups(trainer), draw(ctor_values(trainer, hyper(trainer))))
+    return case
+
+
+@st.composite
+def multi_case(draw, tier="quick", trainers=TRAINERS):
+    layout = draw(st.sampled_from(["fanin", "fanin", "fanout", "twice"]))
+    pool = [t for t in trainers if not (t == "MSTDPET" and layout == "twice")]
+    # (MSTDPET reads its traces through the cell's own monitor-name map, which a second
+    #  registration of the same cell redirects: known finding of C15, not generated here)
+    trainer = draw(st.sampled_from(pool))
+    case = {"trainer": trainer, "layout": layout, "B": draw(st.sampled_from([1, 2, 2, 3]))}
+    nout = draw(st.sampled_from([1, 2, 3]))
+    dkind = draw(st.sampled_from(["none", "none", "frozen", "delayed"]))
+    if trainer == "MSTDPET" and dkind == "delayed":
+        dkind = "frozen"
+    case["dt"] = draw(st.sampled_from([1.0, 0.5, 2.0] + ([1.3] if dkind == "none" else [0.25])))
+    T = draw(st.integers(2, 8 if tier == "quick" else 14))
+    case["T"] = T
+    B = case["B"]
+    groups = override_groups(trainer)
+    cv = draw(ctor_values(trainer, hyper(trainer)))
+    case["ctor"] = cv
+    same = draw(st.integers(0, 4)) == 4  # both cells register identical values: pooling may share
+
+    def geometry(fixed_out):
+        kind = draw(st.sampled_from(["dense", "dense", "direct", "lateral"]))
+        if kind == "lateral" and nout < 2:
+            kind = "dense"
+        if kind == "dense":
+            g = {"conn": "dense", "in_shape": [draw(st.sampled_from([1, 2, 3]))], "out_shape": [fixed_out]}
+        else:
+            g = {"conn": kind, "shape": [fixed_out]}
+        if dkind != "none":
+            g["delay"] = {"max": draw(st.sampled_from([2, 1, 3])),
+                          "steps": draw(st.lists(st.integers(0, 3), min_size=1, max_size=6)),
+                          "delayed": dkind == "delayed"}
+        else:
+            g["delay"] = None
+            g["delayed"] = False
+        g["w0"] = draw(st.sampled_from([[0.5], [0.0], [0.25, 1.0, -0.5]]))
+        return g
+
+    def spikes(n):
+        p = draw(st.sampled_from([2, 1, 3]))
+        return [[_bits(draw, n, p) for _ in range(B)] for _ in range(T)]
+
+    g0 = geometry(nout)
+    g1 = geometry(nout) if layout == "fanin" else {k: (dict(v) if isinstance(v, dict) else v) for k, v in g0.items()}
+    cells = []
+    for k, g in enumerate((g0, g1)):
+        cell = dict(g)
+        if k == 1 and same:
+            for key in ("hp", "mode", "reduction", "inplace", "override"):
+                if key in cells[0]:
+                    cell[key] = cells[0][key]
+            if cell.get("delay") is not None:
+                cell["delay"] = dict(cell["delay"], delayed=cell_delayed(cells[0]))
+            else:
+                cell["delayed"] = cell_delayed(cells[0])
+        else:
+            cell["hp"] = draw(hyper(trainer))
+            cell["mode"] = draw(st.sampled_from(["cumulative", "nearest"]))
+            cell["reduction"] = draw(st.sampled_from(["sum", "mean", "amax"]))
+            if trainer in TRIPLET_TRAINERS:
+                cell["inplace"] = draw(st.booleans())
+            if dkind == "none":
+                cell["delayed"] = draw(st.booleans())  # flag without a delayed connection: no effect
+            elif trainer != "MSTDPET":
+                cell["delay"] = dict(cell["delay"], delayed=draw(st.booleans()) if dkind == "delayed" else False)
+            cell_from_ctor(draw, cell, groups, cv)
+        cells.append(cell)
+    ni0 = shapes_of(dict(cells[0], B=B, dt=case["dt"]))[2]
+    ni1 = shapes_of(dict(cells[1], B=B, dt=case["dt"]))[2]
+    if layout == "fanin":
+        cells[0]["pre"], cells[1]["pre"] = spikes(ni0), spikes(ni1)
+        case["post_shared"] = spikes(nout)
+    elif layout == "fanout":
+        case["pre_shared"] = spikes(ni0)
+        cells[0]["post"], cells[1]["post"] = spikes(nout), spikes(nout)
+    else:
+        case["pre_shared"], case["post_shared"] = spikes(ni0), spikes(nout)
+    case["cells"] = cells
+    if trainer in MODULATED:
+        if draw(st.booleans()):
+            for c in cells:
+                c["reduction"] = "sum"
+                if "reduction" not in c["override"] and cv["reduction"] != "sum":
+                    c["override"] = c["override"] + ["reduction"]
+            case["signal"] = [[draw(st.sampled_from(_SIG)) for _ in range(B)] for _ in range(T)]
+        else:
+            case["signal"] = [draw(st.sampled_from(_SIG)) for _ in range(T)]
+        case["scale"] = draw(st.sampled_from([1.0, 1.0, 0.5, 2.0, -0.5]))
+    case["called"] = ([True] * T if draw(st.integers(0, 3)) < 3
+                      else [draw(st.sampled_from([True, True, True, False])) for _ in range(T)])
+    ukind = draw(st.sampled_from(["every", "end", "some"]))
+    case["update"] = ([True] * T if ukind == "every" else [False] * T if ukind == "end"
+                      else [draw(st.booleans()) for _ in range(T)])
+    case["f64"] = draw(st.integers(0, 9)) == 9
     return case
 
 
@@ -571,6 +1038,18 @@ LEGS = [
              "triggering spike falls on a step where the trainer is called, a non-zero expected update, "
              "in nearest mode >= 2 pre spikes up to one post spike, with delays (max > 0) >= 2 distinct "
              "delays; distinct by SHA-1 of the case",
+    ),
+    Leg(
+        name="multi",
+        run=run_multi,
+        strategy=lambda tier: multi_case(tier),
+        quick=200, thorough=1800, quick_shards=6, thorough_shards=16, nt_floor=0.25,
+        rule="ONE trainer, constructed with one set of hyper-parameters, trains TWO cells of one layer "
+             "(two connections onto one neuron group / one connection onto two neuron groups / the same "
+             "Serial cell under two names) that register different per-cell overrides; one trainer call "
+             "per step; every connection's accumulator and weight equal the sum of the pair sums of its "
+             "cells computed with each cell's own values. Non-trivial: the cells differ in at least one "
+             "effective hyper-parameter and both have a non-zero expected update",
     ),
     Leg(
         name="exhaustive",
